@@ -227,4 +227,12 @@ def obligations(tier, sc):
         if ob.name == "E_paraver_time":
             ob.name = "every_event_advances_trace_time"
             obs.append(ob)
+    # ---- mark timelines: the event types written to thread.prv AND cpu.prv are the ones declared in the matching
+    # .pcf (100 + mark type, with the registered labels): C17's wiring obligations on the real mark_connect, re-run
+    # under this property (a seeded change registered the CPU view's rows under 100 + definition index).
+    from checks import C17 as _c17
+    for ob in _c17.obligations(tier, sc):
+        if ob.name.startswith("C_wiring_"):
+            ob.name = "mark_types_declared_" + ob.name[len("C_wiring_"):]
+            obs.append(ob)
     return obs
